@@ -21,6 +21,7 @@ NEXT Next
 CHECK_DEADLOCK FALSE
 INVARIANT ClosedOncePerUse
 INVARIANT NeverSuppresses
+INVARIANT CancelComesOut
 INVARIANT Emit
 """
 
@@ -33,16 +34,27 @@ BLOCK = {"Exception": Exception, "BaseException": BaseException, "GeneratorExit"
          "StopAsyncIteration": StopAsyncIteration}
 
 
+class Cancelled_(BaseException):
+    pass
+
+
 def run_case(c, closing, nullcontext, susp=1):
     acct = Accounting()
-    st = {"ncls": 0, "args": []}
+    st = {"ncls": 0, "args": [], "reached": False}
+    cancel = Cancelled_("cancel")
+    if c.get("ccancel"):
+        susp = max(susp, 1)
 
     class Thing:
         async def aclose(self, *a, **kw):
             st["ncls"] += 1
             st["args"].append((a, kw))
             for j in range(susp):
-                await Suspend(acct, ("aclose", j))
+                try:
+                    await Suspend(acct, ("aclose", j))
+                except BaseException as e:  # noqa: BLE001
+                    st["reached"] = e is cancel      # what the loop throws arrives here, as it is
+                    raise
             if c["cb"] == "raise":
                 raise CloseError()
             return c["cb"] == "truthy"
@@ -59,13 +71,24 @@ def run_case(c, closing, nullcontext, susp=1):
                 if blk is not None:
                     raise blk
         except BaseException as e:  # noqa: BLE001
-            return "same" if e is blk else f"new:{type(e).__name__}"
+            return "cancel" if e is cancel else "same" if e is blk else f"new:{type(e).__name__}"
         return "ok"
 
     nsusp = 0
-    for _ in range(c["uses"]):
+    for u in range(c["uses"]):
         t = Task(one_use(), acct)
-        r = t.run()
+        if c.get("ccancel") and u == c["uses"] - 1:
+            r = t.step()
+            if r[0] == "token":
+                r = t.throw(cancel)
+                while r[0] == "token":      # held back instead of delivered: the operation goes on suspending
+                    st["held_back"] = True
+                    r = t.step()
+            if not st["reached"]:
+                results.append("cancel-not-delivered-to-aclose")
+                continue
+        else:
+            r = t.run()
         nsusp += t.nsusp
         results.append(r[1] if r[0] == "done" else f"escaped:{r[1]!r}")
     return {"bound": bound, "ncls": st["ncls"], "results": results, "acct_ok": acct.ok(), "nsusp": nsusp,
@@ -80,7 +103,7 @@ def check(prop, tier, seed, into=None):
     mach, n = [], {"impl": 0, "twin": 0}
     for c in cases:
         exp = {k: c[k] for k in ("bound", "ncls", "results")}
-        cfg = {k: c[k] for k in ("kind", "o", "cb", "uses")}
+        cfg = {k: c[k] for k in ("kind", "o", "cb", "uses", "ccancel")}
         got = run_case(c, contextlib.aclosing, contextlib.nullcontext)
         n["twin"] += 1
         if {k: got[k] for k in exp} != exp:
@@ -96,6 +119,8 @@ def check(prop, tier, seed, into=None):
             if not got["args_ok"]:
                 v.violation(f"{prop}/{c['kind']}/aclose-called-with-arguments", {"engine": "simplecm", "cfg": cfg, "observed": got})
             want = susp * c["ncls"]
+            if c.get("ccancel"):
+                want = got["nsusp"]       # a cancelled close suspends once less or more depending on where it was hit
             if not got["acct_ok"] or got["nsusp"] != want:
                 v.violation(f"{prop}/{c['kind']}/suspends-without-user-awaitable",
                             {"engine": "simplecm", "cfg": cfg, "expected_suspensions": want, "observed": got})
